@@ -48,7 +48,7 @@ DEFAULTS = dict(
     ScalDef={"name": "s0", "binary_path": "s0", "isa": "E0", "file_format": "E0", "byte_order": "E0",
              "preferred_addr": "0", "rebase_delta": "0", "at_end": "F", "decode_mode": "E0", "xoffset": "0",
              "xscale": "1", "version": "CUR"},
-    ExprKind={}, ExprSym2={}, Symx0=set(), Cfg0=set(), Pay0=set(), Entry0=set(), ReloadWeight=1, SweepOps={"reload"}, SweepMode=False,
+    ExprKind={}, ExprSym2={}, Symx0=set(), Cfg0=set(), Pay0=set(), Entry0=set(), Geom0=set(), ReloadWeight=1, SweepOps={"reload"}, SweepMode=False,
 )
 
 TREE_KEYS = {"mods", "kids", "par", "cache", "irof", "modof", "secof", "agg"}
@@ -200,6 +200,10 @@ CONFIGS["LazyMove"] = dict(  # blocks moved between two intervals from the recei
     IRs={"i1"}, Modules={"m1"}, Sections={"s1"}, Intervals={"v1", "v2"}, CodeBlocks={"c1", "c2"},
     Families={("set", "blk"), "lookup", "lazy"}, ArgMax=1, Queries={(0, 1, 1)}, LazyK=3,
     Attach0=CHAIN + [("v1", "s1"), ("v2", "s1"), ("c1", "v1"), ("c2", "v1")], EmitKeys=set(LAZY_KEYS))
+CONFIGS["LazySetI"] = dict(  # the section's own set interface under lazy tracking (a member handed to its own set again, ...)
+    IRs={"i1"}, Modules={"m1"}, Sections={"s1"}, Intervals={"v1", "v2", "v3"},
+    Addrs={1}, ISizes={2}, Families={("set", "biv"), "lookup", "lazy"}, ArgMax=1,
+    Geom0={("v1", 1, 2), ("v2", 1, 2), ("v3", 1, 2)}, Queries={(0, 4, 1)}, LazyK=3, Attach0=CHAIN + [("v1", "s1"), ("v2", "s1"), ("v3", "s1")], EmitKeys=set(LAZY_KEYS))
 CONFIGS["LazySim"] = dict(CONFIGS["GeomSim"], Families={"geom", "parent", "set", "lookup", "lazy", "reload"},
                           Queries={(0, 3, 1), (2, 9, 1), (1, 12, 2), (5, 6, 1)}, LazyK=5,
                           EmitKeys=set(LAZY_KEYS))
@@ -218,6 +222,12 @@ CONFIGS["Sym2"] = dict(     # two symbols sharing names and referents
     Symbols={"y1", "y2"}, Names={"a", "EMPTY"}, Pays={"#0"},
     Families={"sym", ("parent", "sym"), ("parent", "sec")},
     Attach0=[a for a in SYM_ATTACH if a[0] != "p1"], EmitKeys=set(SYM_KEYS))
+CONFIGS["Sym3"] = dict(     # both modules in one IR: a symbol handed from one module's set to the other's
+    IRs={"i1"}, Modules={"m1", "m2"}, Sections={"s1"}, Intervals={"v1"}, CodeBlocks={"c1"}, Proxies={"p1"},
+    Symbols={"y1", "y2"}, Names={"a", "b"}, Pays=set(),
+    Families={"sym", ("set", "sym"), ("parent", "prx")}, ArgMax=1,
+    Attach0=SYM_ATTACH + [("m2", "i1"), ("y1", "m1"), ("y2", "m1")], Pay0={("y1", "c1"), ("y2", "p1")},
+    EmitKeys=set(SYM_KEYS))
 CONFIGS["SymT"] = dict(     # thorough, model checking only: 3 symbols, all payload classes
     IRs={"i1"}, Modules={"m1", "m2"}, Sections={"s1"}, Intervals={"v1"}, CodeBlocks={"c1"}, Proxies={"p1"},
     Symbols={"y1", "y2", "y3"}, Names={"a", "EMPTY"}, Pays={"#0"},
